@@ -9,7 +9,13 @@
 //   - the verifsync package is added virtually to the ojg module;
 //   - every package that declares package-level sync.Pool values, or a package-level
 //     sync.Mutex/RWMutex next to empty-map caches, gets a generated zz_verif_restart.go that
-//     registers a restart hook emptying exactly those pools and caches.
+//     registers a restart hook emptying exactly those pools and caches;
+//   - "lazy" package-level state of every package is part of the restart too: a package-level
+//     variable declared without an initial value (or as an empty map) that no init() function
+//     and no package-level initialiser mentions is in its process-start state only until first
+//     use. The hook sets it back (zero value / emptied map), so that a table, memo or cache that
+//     is filled on first use meets its first uses in every run and not only in the first run of
+//     the process. Variables whose type involves a sync primitive are left alone.
 package main
 
 import (
@@ -33,6 +39,8 @@ type pkgInfo struct {
 	mutexes []string
 	rwmuts  []string
 	maps    []string
+	zero    []string // lazily written package-level variables: reset to the zero value
+	lazyMap []string // package-level empty maps outside mutex files: emptied
 }
 
 func main() {
@@ -180,6 +188,11 @@ func main() {
 		os.Exit(2)
 	}
 
+	if err := lazyState(repoAbs, pkgs); err != nil {
+		fmt.Fprintln(os.Stderr, "overlaygen:", err)
+		os.Exit(2)
+	}
+
 	// verifsync package, added virtually
 	shimFiles, _ := filepath.Glob(filepath.Join(*shim, "verifsync", "*.go"))
 	for _, sf := range shimFiles {
@@ -195,7 +208,7 @@ func main() {
 	sort.Strings(dirs)
 	for _, d := range dirs {
 		pi := pkgs[d]
-		if len(pi.pools) == 0 && len(pi.maps) == 0 {
+		if len(pi.pools) == 0 && len(pi.maps) == 0 && len(pi.zero) == 0 && len(pi.lazyMap) == 0 {
 			continue
 		}
 		var b strings.Builder
@@ -222,7 +235,16 @@ func main() {
 		for _, p := range pi.pools {
 			fmt.Fprintf(&b, "\t%s.VerifReset()\n", p)
 		}
+		for _, m := range pi.lazyMap {
+			fmt.Fprintf(&b, "\tfor k := range %s {\n\t\tdelete(%s, k)\n\t}\n", m, m)
+		}
+		for _, z := range pi.zero {
+			fmt.Fprintf(&b, "\tverifZero(&%s)\n", z)
+		}
 		fmt.Fprintf(&b, "}\n")
+		if len(pi.zero) > 0 {
+			fmt.Fprintf(&b, "\nfunc verifZero[T any](p *T) {\n\tvar z T\n\t*p = z\n}\n")
+		}
 		n++
 		dst := filepath.Join(*out, fmt.Sprintf("r%03d_%s_restart.go", n, pi.name))
 		if err := os.WriteFile(dst, []byte(b.String()), 0o644); err != nil {
@@ -232,6 +254,19 @@ func main() {
 		replace[filepath.Join(d, "zz_verif_restart.go")] = dst
 	}
 
+	var lazy []string
+	for _, d := range dirs {
+		rel, _ := filepath.Rel(repoAbs, d)
+		for _, z := range pkgs[d].zero {
+			lazy = append(lazy, rel+"."+z)
+		}
+		for _, z := range pkgs[d].lazyMap {
+			lazy = append(lazy, rel+"."+z+"{}")
+		}
+	}
+	if len(lazy) > 0 {
+		fmt.Println("lazy package state reset at restart:", strings.Join(lazy, " "))
+	}
 	js, _ := json.MarshalIndent(map[string]any{"Replace": replace}, "", " ")
 	if err := os.WriteFile(filepath.Join(*out, "overlay.json"), js, 0o644); err != nil {
 		fmt.Fprintln(os.Stderr, "overlaygen:", err)
@@ -245,4 +280,185 @@ func main() {
 	}
 	sort.Strings(keys)
 	fmt.Println("overlay:", strings.Join(keys, " "))
+}
+
+// lazyState finds, per package, the package-level variables that are in their process-start state only
+// until first use (see the package comment).
+func lazyState(repoAbs string, pkgs map[string]*pkgInfo) error {
+	type cand struct {
+		name  string
+		isMap bool
+		typ   ast.Expr
+	}
+	byDir := map[string][]cand{}
+	mentioned := map[string]map[string]bool{} // dir -> identifiers used in init() bodies and package-level initialisers
+	bodies := map[string]map[string][]*ast.BlockStmt{} // dir -> function or method name -> bodies (for the transitive closure)
+	syncTypes := map[string]map[string]bool{} // dir -> local named types whose declaration involves a sync primitive
+	names := map[string]string{}
+	hasSync := func(n ast.Node) bool {
+		found := false
+		ast.Inspect(n, func(x ast.Node) bool {
+			if se, ok := x.(*ast.SelectorExpr); ok {
+				if id, ok := se.X.(*ast.Ident); ok && (id.Name == "sync" || id.Name == "atomic") {
+					found = true
+				}
+			}
+			return !found
+		})
+		return found
+	}
+	err := filepath.Walk(repoAbs, func(path string, fi os.FileInfo, err error) error {
+		if err != nil {
+			return err
+		}
+		rel, _ := filepath.Rel(repoAbs, path)
+		if fi.IsDir() {
+			base := fi.Name()
+			if rel != "." && (strings.HasPrefix(base, ".") || base == "cmd" || base == "testdata" || base == "verifsync") {
+				return filepath.SkipDir
+			}
+			return nil
+		}
+		if !strings.HasSuffix(path, ".go") || strings.HasSuffix(path, "_test.go") {
+			return nil
+		}
+		fset := token.NewFileSet()
+		f, err := parser.ParseFile(fset, path, nil, 0)
+		if err != nil {
+			return fmt.Errorf("parse %s: %w", path, err)
+		}
+		dir := filepath.Dir(path)
+		names[dir] = f.Name.Name
+		if mentioned[dir] == nil {
+			mentioned[dir] = map[string]bool{}
+			syncTypes[dir] = map[string]bool{}
+			bodies[dir] = map[string][]*ast.BlockStmt{}
+		}
+		note := func(n ast.Node) {
+			ast.Inspect(n, func(x ast.Node) bool {
+				if id, ok := x.(*ast.Ident); ok {
+					mentioned[dir][id.Name] = true
+				}
+				return true
+			})
+		}
+		for _, d := range f.Decls {
+			switch td := d.(type) {
+			case *ast.FuncDecl:
+				if td.Name.Name == "init" && td.Recv == nil && td.Body != nil {
+					note(td.Body)
+				} else if td.Body != nil {
+					bodies[dir][td.Name.Name] = append(bodies[dir][td.Name.Name], td.Body)
+				}
+			case *ast.GenDecl:
+				if td.Tok == token.TYPE {
+					for _, s := range td.Specs {
+						ts := s.(*ast.TypeSpec)
+						if hasSync(ts.Type) {
+							syncTypes[dir][ts.Name.Name] = true
+						}
+					}
+				}
+				if td.Tok != token.VAR {
+					continue
+				}
+				for _, s := range td.Specs {
+					vs := s.(*ast.ValueSpec)
+					for _, v := range vs.Values {
+						note(v)
+					}
+					for i, name := range vs.Names {
+						if name.Name == "_" {
+							continue
+						}
+						switch {
+						case len(vs.Values) == 0 && vs.Type != nil:
+							byDir[dir] = append(byDir[dir], cand{name: name.Name, typ: vs.Type})
+						case i < len(vs.Values):
+							if cl, ok := vs.Values[i].(*ast.CompositeLit); ok {
+								if _, isMap := cl.Type.(*ast.MapType); isMap && len(cl.Elts) == 0 {
+									byDir[dir] = append(byDir[dir], cand{name: name.Name, isMap: true})
+								}
+							}
+							if ce, ok := vs.Values[i].(*ast.CallExpr); ok {
+								if id, ok := ce.Fun.(*ast.Ident); ok && id.Name == "make" && len(ce.Args) > 0 {
+									if _, isMap := ce.Args[0].(*ast.MapType); isMap {
+										byDir[dir] = append(byDir[dir], cand{name: name.Name, isMap: true})
+									}
+								}
+							}
+						}
+					}
+				}
+			}
+		}
+		return nil
+	})
+	if err != nil {
+		return err
+	}
+	// whatever init() or an initialiser may reach through the package's own functions and methods
+	// (by name, conservatively) counts as mentioned too: fnMap filled by Define() called from init()
+	for dir, m := range mentioned {
+		done := map[string]bool{}
+		for changed := true; changed; {
+			changed = false
+			for name := range m {
+				if done[name] {
+					continue
+				}
+				done[name] = true
+				for _, b := range bodies[dir][name] {
+					ast.Inspect(b, func(x ast.Node) bool {
+						if id, ok := x.(*ast.Ident); ok && !m[id.Name] {
+							m[id.Name] = true
+							changed = true
+						}
+						return true
+					})
+				}
+			}
+		}
+	}
+	for dir, cs := range byDir {
+		for _, c := range cs {
+			// (a var's own initialiser mentions only other names; its own name counts when init() or
+			// another initialiser uses it)
+			if mentioned[dir][c.name] {
+				continue
+			}
+			pi := pkgs[dir]
+			if pi == nil {
+				pi = &pkgInfo{name: names[dir], dir: dir}
+				pkgs[dir] = pi
+			}
+			if c.isMap {
+				dup := false
+				for _, m := range pi.maps {
+					if m == c.name {
+						dup = true
+					}
+				}
+				if !dup {
+					pi.lazyMap = append(pi.lazyMap, c.name)
+				}
+				continue
+			}
+			skip := hasSync(c.typ)
+			ast.Inspect(c.typ, func(x ast.Node) bool {
+				if id, ok := x.(*ast.Ident); ok && syncTypes[dir][id.Name] {
+					skip = true
+				}
+				return true
+			})
+			if !skip {
+				pi.zero = append(pi.zero, c.name)
+			}
+		}
+		if pi := pkgs[dir]; pi != nil {
+			sort.Strings(pi.zero)
+			sort.Strings(pi.lazyMap)
+		}
+	}
+	return nil
 }
